@@ -39,9 +39,10 @@ from ..x_sites import method_calls
 from ..x_peval import UNK, make_resolver, pure_self_methods, peval, try_fold
 
 from ..x_http import norm_func
+from ..x_objalias import subst_object_aliases
 
 # private helpers that the rules model by name (sanitisers / summarised effects) and therefore must stay calls
-KEEP_CALLS = {"_format_chunk", "_convert_header_value", "_clear_representation_headers", "_can_keep_alive", "_compressible_type",
+KEEP_CALLS = {"_format_chunk", "_convert_header_value", "_clear_representation_headers", "_can_keep_alive",
               "_on_write_complete", "_finish_request", "_clear_callbacks"}
 
 
@@ -49,11 +50,28 @@ def F(ck, relpath, qualname):
     """The anchored function with its private same-file helpers inlined (function splitting is followed, depth 3)."""
     fi = ck.func(relpath, qualname)
     try:
-        return norm_func(ck.repo, fi, depth=3, no_inline=KEEP_CALLS)
+        return subst_object_aliases(norm_func(ck.repo, fi, depth=3, no_inline=KEEP_CALLS))
     except AnalysisError:
         raise
     except Exception as e:  # the normaliser must never turn into a verdict
         raise AnalysisError("cannot normalise %s: %r" % (qualname, e))
+
+
+def fully_inlined(fi, keep=()):
+    """No call of a private method of ``self`` is left in the normalised function (other than the ones the rules
+    model by name): only then may the *absence* of an effect be reported as a violation."""
+    for c in q.calls(fi.node):
+        if isinstance(c.func, ast.Attribute) and q.dotted(c.func.value) in ("self", "cls") and c.func.attr.startswith("_") and not c.func.attr.startswith("__") and c.func.attr not in KEEP_CALLS and c.func.attr not in keep:
+            return False
+    return True
+
+
+def absent(fi, what, keep=()):
+    """Verdict for 'the required effect was not found': False (a violation) only when the function was fully
+    recognised; otherwise the analysis fails closed."""
+    if not fully_inlined(fi, keep):
+        raise AnalysisError("%s: %s not found, and private helpers remain that could not be inlined" % (fi.qualname, what))
+    return False
 
 
 TECHNIQUE = "partial evaluation of the transform's CFG over the full valuation space + call-sequence typestate + who-may-write / who-may-call"
@@ -62,7 +80,7 @@ EXPLANATION = (
     "compressible, size); the header/flag state at every normal exit is compared with the property's clauses.  transform_chunk is evaluated "
     "for the 4 (gzipping, finishing) cases and the sequence of calls on the GzipFile/BytesIO pair is checked.  flush/finish call sites are checked structurally."
 )
-NOT_DECIDED = "equality of the decoded body with the bytes written (the deflate stream itself is zlib's); output transforms other than GZipContentEncoding"
+NOT_DECIDED = "which media types count as compressible beyond the probes used (text/* must be allowed to compress; image/png, application/zip, application/octet-stream, video/mp4 must not): the property does not enumerate the set and tornado's whitelist CONTENT_TYPES is a tunable class attribute, so widening it (e.g. a generic '+xml' rule, red-team C29-adv4) changes which responses are compressed but not the transparency of the encoding and is not reported; equality of the decoded body with the bytes written (the deflate stream itself is zlib's); output transforms other than GZipContentEncoding"
 LEVEL_NOTE = "HTTPHeaders modelled as the set of names present; GzipFile/BytesIO semantics from the CPython documentation"
 
 WEB = "tornado/web.py"
@@ -88,25 +106,20 @@ def check_first_chunk(ck):
         raise AnalysisError("transform_first_chunk signature changed: %s" % ps)
     _self, status, hd, chunk, fin = ps
     tc = F(ck, WEB, GZ + ".transform_chunk")
-    ct = F(ck, WEB, GZ + "._compressible_type")
-    if "_gzipping" in self_writes(tc) or self_writes(ct):
-        raise AnalysisError("transform_chunk/_compressible_type store to the transform's state; not modelled")
+    if "_gzipping" in self_writes(tc):
+        raise AnalysisError("transform_chunk stores to the compression flag; not modelled")
     try:
         min_len = q.fold(ck.repo.class_attr(WEB, GZ, "MIN_LENGTH"), {})
     except (q.NotFoldable, AnalysisError):
         min_len = UNK
-    comp_calls = [c for c in q.calls(fi.node) if q.is_call(c, "self._compressible_type")]
-    ck.ob("C29.only-when-allowed", fi, fi.node, len(comp_calls) >= 1, "transform_first_chunk consults _compressible_type", construct="content type not consulted")
-    comp_key = ("call:" + q.unparse(comp_calls[0])) if comp_calls else "@no-compressible-call"
-    # the type tested is the response's Content-Type
-    for c in comp_calls:
-        a = c.args[0] if c.args else None
-        src = a
-        if isinstance(a, ast.Name):
-            defs = [st for st in q.walk_body(fi.node) if isinstance(st, (ast.Assign, ast.AnnAssign)) and a.id in q.assigned_paths(st) and st.value is not None]
-            src = defs[0].value if len(defs) == 1 else None
-        ok = src is not None and "Content-Type" in q.literal_strs(src) and hd in q.names_in(src)
-        ck.ob("C29.only-when-allowed", fi, c, ok, "the type tested for compressibility is the response's Content-Type header")
+    try:
+        whitelist = q.fold(ck.repo.class_attr(WEB, GZ, "CONTENT_TYPES"), {})
+        whitelist = frozenset(whitelist) if isinstance(whitelist, (tuple, frozenset)) else UNK
+    except (q.NotFoldable, AnalysisError):
+        whitelist = UNK
+    # Content types used as probes.  The property does not enumerate the compressible set (tornado's whitelist is a
+    # tunable class attribute); what it does fix is that opaque, already-compressed media are not compressible.
+    PROBES = (("text/html; charset=UTF-8", True), ("image/png", False), ("application/zip", False), ("application/octet-stream; x=1", False), ("video/mp4", False))
     len_key = "call:len(%s)" % chunk
 
     def hook(n, env):
@@ -159,20 +172,20 @@ def check_first_chunk(ck):
 
     resolver = make_resolver(ck.repo, WEB, GZ)
     ksm = {m: None for m in pure_self_methods(ck.repo, WEB, GZ)}
-    ksm.update({"transform_chunk": None, "_compressible_type": None})
+    ksm.update({"transform_chunk": None})
     n_val = 0
     names = ("Vary", "Content-Length", "Content-Encoding")
-    for gz_in, finishing, compressible, big in itertools.product((False, True), repeat=4):
+    for (gz_in, finishing, big), (ctype_probe, compressible) in itertools.product(itertools.product((False, True), repeat=3), PROBES):
         for present in itertools.product((False, True), repeat=3):
-            hin = frozenset(nm for nm, p in zip(names, present) if p)
-            init = {FLAG: gz_in, fin: finishing, hd: hin, comp_key: compressible, len_key: (10 ** 6 if big else 0), "self.MIN_LENGTH": min_len,
+            hin = frozenset(nm for nm, p in zip(names, present) if p) | {"Content-Type"}
+            init = {FLAG: gz_in, fin: finishing, hd: hin, "%s[%r]" % (hd, "Content-Type"): ctype_probe, "self.CONTENT_TYPES": whitelist, len_key: (10 ** 6 if big else 0), "self.MIN_LENGTH": min_len,
                     "@vary": None, "@ce": None, "@cl": None, "@transformed": False, "@chunkvar": chunk, "@ret": None, "@resolve": resolver}
             states = peval(fi.cfg, init, hook=hook, known_self_methods=ksm, track=lambda t: True)
             exits = states.get(fi.cfg.exit.id, [])
             if not exits:
                 raise AnalysisError("transform_first_chunk has no normal exit")
             n_val += 1
-            label = "accepts_gzip=%s finishing=%s compressible=%s large=%s headers_in={%s}" % (gz_in, finishing, compressible, big, ",".join(sorted(hin)))
+            label = "accepts_gzip=%s finishing=%s content_type=%r large=%s headers_in={%s}" % (gz_in, finishing, ctype_probe, big, ",".join(sorted(hin - {"Content-Type"})))
             seen = set()
             for _f, env in exits:
                 gz = env.get(FLAG, UNK)
@@ -189,8 +202,8 @@ def check_first_chunk(ck):
                 desc = "%s -> gzipping=%s headers_out={%s}" % (label, gz, ",".join(sorted(hout)))
                 ck.ob("C29.vary", fi, fi.node, "Vary" in hout and env.get("@vary") is True, "Vary includes Accept-Encoding on every path: " + desc, construct="Vary: Accept-Encoding not set (gzipping=%s)" % gz)
                 allowed = gz_in and compressible and "Content-Encoding" not in hin
-                ck.ob("C29.only-when-allowed", fi, fi.node, (not gz) or allowed, "compression is on only if the request accepted gzip, the type is compressible and no Content-Encoding was set: " + desc,
-                      construct="compressing although accepts_gzip=%s compressible=%s encoding_present=%s" % (gz_in, compressible, "Content-Encoding" in hin))
+                ck.ob("C29.only-when-allowed", fi, fi.node, (not gz) or allowed, "compression is on only if the request accepted gzip, the type is not opaque/already-compressed media and no Content-Encoding was set: " + desc,
+                      construct="compressing although accepts_gzip=%s content_type=%s encoding_present=%s" % (gz_in, ctype_probe.split(";")[0], "Content-Encoding" in hin))
                 ck.ob("C29.only-when-allowed", fi, fi.node, not (gz and finishing and not big), "an empty single-flush body (304/204/HEAD-style responses) is never turned into a non-empty gzip body: " + desc,
                       construct="compressing an empty final body")
                 ce_ok = (env.get("@ce") == "gzip" and "Content-Encoding" in hout) if gz else (env.get("@ce") is None and (("Content-Encoding" in hout) == ("Content-Encoding" in hin)))
@@ -291,15 +304,14 @@ def check_flag_sources(ck):
             continue
         for st in q.stores_to(fi.node, FLAG):
             ck.ob("C29.only-when-allowed", fi, st, False, "only __init__ and transform_first_chunk decide whether to compress")
-    ct = F(ck, WEB, GZ + "._compressible_type")
-    p = [x for x in ct.params() if x != "self"]
-    rets = [n for n in q.walk_body(ct.node) if isinstance(n, ast.Return)]
-    ck.floor("C29.only-when-allowed", len(rets), 1, "returns in _compressible_type")
-    for r in rets:
-        v = r.value
-        parts = q.split_disj(v) if v is not None else []
-        ok = bool(parts) and all(p[0] in q.names_in(x) for x in parts) and not any(isinstance(x, ast.Constant) for x in parts)
-        ck.ob("C29.only-when-allowed", ct, r, ok, "every alternative of the compressibility test depends on the content type (text/* or the whitelist)")
+    if ck.repo.has_func(WEB, GZ + "._compressible_type"):
+        ct = F(ck, WEB, GZ + "._compressible_type")
+        p = [x for x in ct.params() if x != "self"]
+        for r in [n for n in q.walk_body(ct.node) if isinstance(n, ast.Return)]:
+            v = r.value
+            parts = q.split_disj(v) if v is not None else []
+            ok = bool(parts) and bool(p) and all(p[0] in q.names_in(x) for x in parts) and not any(isinstance(x, ast.Constant) for x in parts)
+            ck.ob("C29.only-when-allowed", ct, r, ok, "every alternative of the compressibility test depends on the content type (text/* or the whitelist)")
 
 
 def check_application(ck):
@@ -325,6 +337,8 @@ def check_application(ck):
             raise AnalysisError("RequestHandler.flush applies %s outside a 'for t in self._transforms' loop: unknown idiom" % c.func.attr)
         (first_ids if first else later_ids).add(owner.id)
         fin_arg = q.arg(c, 3 if first else 1, "finishing")
+        if fin_arg is None or q.arg(c, 2 if first else 0, "chunk") is None:
+            raise AnalysisError("RequestHandler.flush: arguments of %s not recognised" % c.func.attr)
         ck.ob("C29.transform-applied", fl, c, fin_arg is not None and q.dotted(expand_locals(fl, fin_arg)) == footers, "the transform is told whether this is the finishing flush (%s)" % footers)
         chunk_arg = q.arg(c, 2 if first else 0, "chunk")
         fed = chunk_arg is not None and any(expr_tainted(chunk_arg, t) for t in buf.get(node.id, []))
